@@ -19,10 +19,11 @@ import (
 	"fmt"
 	"os"
 	"path/filepath"
+	"os/exec"
 	"sort"
+	"strconv"
 	"strings"
 	"sync"
-	"sync/atomic"
 	"testing"
 	"testing/synctest"
 	"time"
@@ -77,60 +78,97 @@ type worker struct {
 	cs     *cstore
 	stores map[string]*store.Store
 	st     *stats
-	rep    *vx.Report
+	sink   *sink
 	hang   time.Duration
 }
 
 type stats struct {
-	cases      int64
-	distinct   int64
-	events     int64
-	worlds     int64
-	accepted   int64 // well-formed requests whose reply was accepted with exactly the requested data
-	notFound   int64
-	refused    int64
-	mixed      int64
-	faulted    int64
-	overlong   int64
-	recovered  int64 // panics caught by the recovery middleware (counted, judged only if they escape)
-	overRel    int64
-	outcomes   map[string]int64 // kind|class|why|fault -> client class|status|reset
-	perGroup   map[string]int64
-	perKind    map[string]int64
-	perWidth   map[string]int64
-	perStorage map[string]int64
-	perFault   map[string]int64
-	groupNs    map[string]int64 // worker time per enumerator group (reported, never judged)
+	Cases      int64 `json:"cases"`
+	Distinct   int64 `json:"distinct"`
+	Events     int64 `json:"events"`
+	Worlds     int64 `json:"worlds"`
+	Accepted   int64 `json:"accepted"` // well-formed requests whose reply was accepted with exactly the requested data
+	NotFound   int64 `json:"not_found"`
+	Refused    int64 `json:"refused"`
+	Mixed      int64 `json:"mixed"`
+	Faulted    int64 `json:"faulted"`
+	Overlong   int64 `json:"overlong"`
+	Recovered  int64 `json:"recovered"` // panics caught by the recovery middleware (counted, judged only if they escape)
+	OverRel    int64 `json:"over_release"`
+	Short      int64 `json:"short_strings"`
+	Outcomes   map[string]int64 `json:"outcomes"` // kind|class|why|fault -> client class|status|reset
+	PerGroup   map[string]int64 `json:"per_group"`
+	PerKind    map[string]int64 `json:"per_kind"`
+	PerWidth   map[string]int64 `json:"per_width"`
+	PerStorage map[string]int64 `json:"per_storage"`
+	PerFault   map[string]int64 `json:"per_fault"`
+	GroupNs    map[string]int64 `json:"group_ns"` // worker time per enumerator group (reported, never judged)
 }
 
 func newStats() *stats {
-	return &stats{outcomes: map[string]int64{}, perGroup: map[string]int64{}, perKind: map[string]int64{},
-		perWidth: map[string]int64{}, perStorage: map[string]int64{}, perFault: map[string]int64{}, groupNs: map[string]int64{}}
+	return &stats{Outcomes: map[string]int64{}, PerGroup: map[string]int64{}, PerKind: map[string]int64{},
+		PerWidth: map[string]int64{}, PerStorage: map[string]int64{}, PerFault: map[string]int64{}, GroupNs: map[string]int64{}}
 }
 
 func (s *stats) merge(o *stats) {
-	s.cases += o.cases
-	s.distinct += o.distinct
-	s.events += o.events
-	s.worlds += o.worlds
-	s.accepted += o.accepted
-	s.notFound += o.notFound
-	s.refused += o.refused
-	s.mixed += o.mixed
-	s.faulted += o.faulted
-	s.overlong += o.overlong
-	s.recovered += o.recovered
-	s.overRel += o.overRel
-	for _, p := range []struct{ a, b map[string]int64 }{{s.outcomes, o.outcomes}, {s.perGroup, o.perGroup},
-		{s.perKind, o.perKind}, {s.perWidth, o.perWidth}, {s.perStorage, o.perStorage}, {s.perFault, o.perFault}, {s.groupNs, o.groupNs}} {
+	s.Cases += o.Cases
+	s.Distinct += o.Distinct
+	s.Events += o.Events
+	s.Worlds += o.Worlds
+	s.Accepted += o.Accepted
+	s.NotFound += o.NotFound
+	s.Refused += o.Refused
+	s.Mixed += o.Mixed
+	s.Faulted += o.Faulted
+	s.Overlong += o.Overlong
+	s.Recovered += o.Recovered
+	s.OverRel += o.OverRel
+	s.Short += o.Short
+	for _, p := range []struct{ a, b map[string]int64 }{{s.Outcomes, o.Outcomes}, {s.PerGroup, o.PerGroup},
+		{s.PerKind, o.PerKind}, {s.PerWidth, o.PerWidth}, {s.PerStorage, o.PerStorage}, {s.PerFault, o.PerFault}, {s.GroupNs, o.GroupNs}} {
 		for k, v := range p.b {
 			p.a[k] += v
 		}
 	}
 }
 
-func newWorker(t *testing.T, rep *vx.Report, dir string) (*worker, error) {
-	wk := &worker{t: t, dir: dir, host: newFHost(), st: newStats(), rep: rep, stores: map[string]*store.Store{}, hang: 180 * time.Second}
+// findingRec is a violation as transported from a shard process to the parent.
+type findingRec struct {
+	Sig   string `json:"sig"`
+	What  string `json:"what"`
+	Case  vCase  `json:"case"`
+	Count int    `json:"count"`
+}
+
+// sink collects what a worker finds (in a shard process: to be sent to the parent).
+type sink struct {
+	findings map[string]*findingRec
+	order    []string
+	samples  []vCase
+	sampled  map[string]bool
+}
+
+func newSink() *sink { return &sink{findings: map[string]*findingRec{}, sampled: map[string]bool{}} }
+
+func (k *sink) finding(sig, what string, c vCase) {
+	if f, ok := k.findings[sig]; ok {
+		f.Count++
+		return
+	}
+	k.findings[sig] = &findingRec{Sig: sig, What: what, Case: c, Count: 1}
+	k.order = append(k.order, sig)
+}
+
+func (k *sink) sample(key string, c func() vCase) {
+	if k.sampled[key] {
+		return
+	}
+	k.sampled[key] = true
+	k.samples = append(k.samples, c())
+}
+
+func newWorker(t *testing.T, dir string) (*worker, error) {
+	wk := &worker{t: t, dir: dir, host: newFHost(), st: newStats(), sink: newSink(), stores: map[string]*store.Store{}, hang: 180 * time.Second}
 	for _, sf := range storages {
 		p := store.DefaultParameters()
 		if sf != "mem" {
@@ -196,6 +234,7 @@ type observation struct {
 	payload    int
 	resets     []uint32
 	inPanic    int
+	leftOpen   bool
 	returned   bool
 	escaped    any
 	opens      int
@@ -216,8 +255,8 @@ func (o *observation) String() string {
 	if len(o.resets) > 0 {
 		rs = fmt.Sprint(o.resets)
 	}
-	return fmt.Sprintf("client=%s status=%s payload=%d resets=%s returned=%v escaped=%v opens=%d closes=%d reserved=%d released=%d denied=%d",
-		o.cliClass, statusName(o.status), o.payload, rs, o.returned, o.escaped, o.opens, o.closes, o.reserved, o.released, o.denied)
+	return fmt.Sprintf("client=%s status=%s payload=%d resets=%s returned=%v escaped=%v opens=%d closes=%d reserved=%d released=%d denied=%d left-open=%v",
+		o.cliClass, statusName(o.status), o.payload, rs, o.returned, o.escaped, o.opens, o.closes, o.reserved, o.released, o.denied, o.leftOpen)
 }
 
 func statusName(s int) string {
@@ -283,7 +322,13 @@ func (wk *worker) exchangeOnce(sp spec, w *world, exp expectation) (*observation
 		req = &rawReq{name: kindProto[sp.kind], data: sp.raw}
 	}
 	resp := newContainer(sp.kind)
-	o.cliErr = wk.cli.Get(context.Background(), req, resp, wk.host.ID())
+	// watchdog (real time, generous): a client that never returns is unblocked by cancelling
+	// its context; what is judged is whether the handler returned, never the time it took
+	ctx, cancel := context.WithCancel(context.Background())
+	wd := time.AfterFunc(wk.hang, cancel)
+	o.cliErr = wk.cli.Get(ctx, req, resp, wk.host.ID())
+	wd.Stop()
+	cancel()
 	o.cliClass = classOfClientErr(o.cliErr)
 
 	wk.host.mu.Lock()
@@ -297,12 +342,20 @@ func (wk *worker) exchangeOnce(sp spec, w *world, exp expectation) (*observation
 	select {
 	case <-ex.done:
 		o.returned = true
-	case <-time.After(wk.hang):
-		o.returned = false
+	default:
+		tm := time.NewTimer(wk.hang)
+		select {
+		case <-ex.done:
+			o.returned = true
+		case <-tm.C:
+			o.returned = false
+		}
+		tm.Stop()
 	}
 	ex.mu.Lock()
 	defer ex.mu.Unlock()
 	o.resets = append([]uint32(nil), ex.resets...)
+	o.leftOpen = ex.leftOpen
 	o.inPanic = ex.resetInPanic
 	o.escaped = ex.escaped
 	o.opens, o.closes = ex.opens, ex.closes
@@ -327,8 +380,6 @@ func (wk *worker) exchangeOnce(sp spec, w *world, exp expectation) (*observation
 }
 
 type finding struct{ sig, what string }
-
-var sampled sync.Map
 
 // judge applies the property. Only what the statement demands is a finding.
 func judge(sp spec, w *world, exp expectation, o *observation, resp response) []finding {
@@ -433,34 +484,37 @@ func (wk *worker) run(sp spec, w *world, lay string) (string, []finding) {
 	o, resp := wk.exchangeOnce(sp, w, exp)
 	fs := judge(sp, w, exp, o, resp)
 	st := wk.st
-	st.groupNs[sp.group] += int64(time.Since(t0))
-	st.cases++
-	st.events += o.events
-	st.perGroup[sp.group]++
-	st.perKind[kindNames[sp.kind]]++
-	st.perFault[sp.fault.Name]++
+	st.GroupNs[sp.group] += int64(time.Since(t0))
+	st.Cases++
+	st.Events += o.events
+	st.PerGroup[sp.group]++
+	st.PerKind[kindNames[sp.kind]]++
+	st.PerFault[sp.fault.Name]++
 	if o.inPanic > 0 {
-		st.recovered++
+		st.Recovered++
 	}
 	if o.released > o.reserved {
-		st.overRel++
+		st.OverRel++
 	}
 	if exp.overlong {
-		st.overlong++
+		st.Overlong++
 	}
 	switch {
 	case sp.fault.Name != "none" && sp.fault.Name != "mem-limit":
-		st.faulted++
+		st.Faulted++
 	case exp.class == expData && len(fs) == 0:
-		st.accepted++
+		st.Accepted++
 	case exp.class == expNotFound && len(fs) == 0:
-		st.notFound++
+		st.NotFound++
 	case exp.class == expRefuse && len(fs) == 0:
-		st.refused++
+		st.Refused++
 	case exp.class == expMixedNS:
-		st.mixed++
+		st.Mixed++
 	}
 	rs := "no-reset"
+	if o.leftOpen {
+		rs = "left-open"
+	}
 	if len(o.resets) > 0 {
 		rs = fmt.Sprintf("reset%v", o.resets)
 		if o.inPanic > 0 {
@@ -472,16 +526,15 @@ func (wk *worker) run(sp spec, w *world, lay string) (string, []finding) {
 		ver = fmt.Sprintf("|verified=%v,equal=%v", o.verr == nil, o.equal)
 	}
 	out := fmt.Sprintf("client=%s|status=%s|%s%s", o.cliClass, statusName(o.status), rs, ver)
-	st.outcomes[fmt.Sprintf("%s|%s|%s|%s -> %s", kindNames[sp.kind], exp.class, exp.why, sp.fault.Name, out)]++
-	if _, seen := sampled.LoadOrStore(sp.group+"/"+exp.class, true); !seen {
-		wk.rep.AddSample(vCase{Layout: lay, Storage: w.storage, Kind: kindNames[sp.kind], Mode: sp.mode, Raw: hexs(sp.raw), Fault: sp.fault.Name,
-			Group: sp.group, Held: w.height, Req: exp.id.String(), Expect: exp.class + ":" + exp.why, Outcome: o.String()})
-	}
-	for _, f := range fs {
-		c := vCase{Layout: lay, Storage: w.storage, Kind: kindNames[sp.kind], Mode: sp.mode, Raw: hexs(sp.raw), Fault: sp.fault.Name,
+	st.Outcomes[fmt.Sprintf("%s|%s|%s|%s -> %s", kindNames[sp.kind], exp.class, exp.why, sp.fault.Name, out)]++
+	mk := func() vCase {
+		return vCase{Layout: lay, Storage: w.storage, Kind: kindNames[sp.kind], Mode: sp.mode, Raw: hexs(sp.raw), Fault: sp.fault.Name,
 			Group: sp.group, Held: w.height, Req: exp.id.String(), Expect: exp.class + ":" + exp.why, Outcome: o.String()}
-		wk.rep.Violation(f.sig, fmt.Sprintf("%s [%s %s %s %s fault=%s expect=%s:%s] %s", f.what, lay, w.storage, exp.id, sp.mode, sp.fault.Name,
-			exp.class, exp.why, o.String()), c)
+	}
+	wk.sink.sample(sp.group+"/"+exp.class, mk)
+	for _, f := range fs {
+		wk.sink.finding(f.sig, fmt.Sprintf("%s [%s %s %s %s fault=%s expect=%s:%s] %s", f.what, lay, w.storage, exp.id, sp.mode, sp.fault.Name,
+			exp.class, exp.why, o.String()), mk())
 	}
 	return out, fs
 }
@@ -608,7 +661,7 @@ func notHeld(w *world) []spec {
 
 // fieldGrid: each field at and beyond its bound for the stored square, zero height, bad
 // namespaces, from >= to, huge ranges; also combined with a height that is not held.
-func fieldGrid(w *world) []spec {
+func fieldGrid(w *world, full bool) []spec {
 	var out []spec
 	memLim, _ := faultByName("mem-limit")
 	add := func(id refID, f fault) {
@@ -616,6 +669,9 @@ func fieldGrid(w *world) []spec {
 	}
 	base := baseIDs(w)
 	heights := []uint64{w.height, 0, w.height + 1}
+	if !full {
+		heights = heights[:1]
+	}
 	for k := 0; k < numKinds; k++ {
 		id := base[k][0]
 		id.height = 0
@@ -652,11 +708,15 @@ func fieldGrid(w *world) []spec {
 }
 
 // lengths: every truncation of a valid encoding and some over-long variants.
-func lengths(w *world) []spec {
+func lengths(w *world, full bool) []spec {
 	var out []spec
 	base := baseIDs(w)
+	nb := 2
+	if !full {
+		nb = 1
+	}
 	for k := 0; k < numKinds; k++ {
-		for bi := 0; bi < 2; bi++ {
+		for bi := 0; bi < nb; bi++ {
 			enc := refEncode(base[k][bi])
 			for n := 0; n < len(enc); n++ {
 				out = append(out, spec{kind: k, mode: "raw", raw: enc[:n], fault: faultAlphabet[0], group: "truncation"})
@@ -692,25 +752,29 @@ func substitutions(w *world) []spec {
 	return out
 }
 
-// shortStrings: all byte strings of length <= maxLen on every protocol.
-func shortStrings(maxLen int) []spec {
-	var out []spec
+// shortStrings calls f with every byte string of length <= maxLen on every protocol; f
+// returns false to stop.
+func shortStrings(maxLen int, f func(spec) bool) {
+	mk := func(k int, raw []byte) spec {
+		return spec{kind: k, mode: "raw", raw: raw, fault: faultAlphabet[0], group: "short-strings"}
+	}
 	for k := 0; k < numKinds; k++ {
-		out = append(out, spec{kind: k, mode: "raw", raw: []byte{}, fault: faultAlphabet[0], group: "short-strings"})
-		if maxLen >= 1 {
-			for a := 0; a < 256; a++ {
-				out = append(out, spec{kind: k, mode: "raw", raw: []byte{byte(a)}, fault: faultAlphabet[0], group: "short-strings"})
+		if !f(mk(k, []byte{})) {
+			return
+		}
+		for a := 0; maxLen >= 1 && a < 256; a++ {
+			if !f(mk(k, []byte{byte(a)})) {
+				return
 			}
 		}
-		if maxLen >= 2 {
-			for a := 0; a < 256; a++ {
-				for b := 0; b < 256; b++ {
-					out = append(out, spec{kind: k, mode: "raw", raw: []byte{byte(a), byte(b)}, fault: faultAlphabet[0], group: "short-strings"})
+		for a := 0; maxLen >= 2 && a < 256; a++ {
+			for b := 0; b < 256; b++ {
+				if !f(mk(k, []byte{byte(a), byte(b)})) {
+					return
 				}
 			}
 		}
 	}
-	return out
 }
 
 // faultCases: the fault alphabet on well-formed requests (all of them, or the corner list)
@@ -759,27 +823,44 @@ func faultCases(w *world, all bool) []spec {
 func layoutsFor(tier string) []sq.Layout {
 	var ls []sq.Layout
 	ls = append(ls, sq.Layouts(1, 0, nil)...)
-	ls = append(ls, sq.Layouts(2, 0, []int{0, 1})...)
 	if tier == "thorough" {
-		ls = append(ls, sq.Layouts(4, 3, []int{0, 2})...)
+		ls = append(ls, sq.Layouts(2, 0, []int{0, 1})...)
+		ls = append(ls, sq.Layouts(4, 3, nil)...)
 		ls = append(ls, sq.Fixed8()...)
 	} else {
+		ls = append(ls, sq.Layouts(2, 0, nil)...)
 		ls = append(ls, sq.Layouts(4, 2, nil)...)
 	}
 	return ls
 }
 
+// storagesOf: which storage forms a layout is served from. Quick: all three for widths <= 2,
+// one (rotating with the layout index) for width 4. Thorough: all three for every layout.
+func storagesOf(tier string, l sq.Layout, li int) []string {
+	if tier == "thorough" || l.W <= 2 {
+		return storages
+	}
+	return storages[li%3 : li%3+1]
+}
+
+// specsFor is the case list of one world. Every world gets every well-formed request, the
+// not-held heights, the field grid at the held height, the truncations and the fault
+// alphabet (on all well-formed requests for widths <= 2, on a corner list otherwise). The
+// parts that do not depend on the stored data (grid repeated for zero / not-held heights,
+// second truncation base, byte substitutions) run in full on the file-backed (q4) world of a
+// layout, and byte substitutions only on every n-th layout.
 func specsFor(w *world, tier string, layoutIdx int) []spec {
+	full := w.storage == "q4" || tier == "thorough"
 	var out []spec
 	out = append(out, wellFormed(w)...)
 	out = append(out, notHeld(w)...)
-	out = append(out, fieldGrid(w)...)
-	out = append(out, lengths(w)...)
-	every := 16
+	out = append(out, fieldGrid(w, full)...)
+	out = append(out, lengths(w, full)...)
+	every := 8
 	if tier == "thorough" {
 		every = 4
 	}
-	if w.S.W <= 2 || layoutIdx%every == 0 {
+	if full && (w.S.W == 1 || layoutIdx%every == 0) {
 		out = append(out, substitutions(w)...)
 	}
 	out = append(out, faultCases(w, w.S.W <= 2 || (tier == "thorough" && w.S.W == 4 && layoutIdx%8 == 0))...)
@@ -814,15 +895,216 @@ func tmpRoot() string {
 	return os.TempDir()
 }
 
+// job is one unit of work of a shard: a world (layout × storage form) or a slice of the
+// short-string enumeration.
+type job struct {
+	li      int
+	lay     sq.Layout
+	storage string
+	short   int // >0: short strings of protocol kind short-1, part shortPart of shortParts
+	part    int
+}
+
+const shortParts = 4
+
+func planJobs(tier string, seed int64) ([]job, []sq.Layout) {
+	layouts := layoutsFor(tier)
+	if seed != 0 && len(layouts) > 0 { // the seed only rotates the order
+		k := int(uint64(seed) % uint64(len(layouts)))
+		layouts = append(append([]sq.Layout(nil), layouts[k:]...), layouts[:k]...)
+	}
+	var jobs []job
+	for li, l := range layouts {
+		for _, sf := range storagesOf(tier, l, li) {
+			jobs = append(jobs, job{li: li, lay: l, storage: sf})
+		}
+	}
+	// spread the short-string slices over the job list (they are cheap and uniform)
+	step := len(jobs)/(numKinds*shortParts) + 1
+	var out []job
+	n := 0
+	for i, j := range jobs {
+		out = append(out, j)
+		if i%step == 0 && n < numKinds*shortParts {
+			out = append(out, job{short: n/shortParts + 1, part: n % shortParts})
+			n++
+		}
+	}
+	for ; n < numKinds*shortParts; n++ {
+		out = append(out, job{short: n/shortParts + 1, part: n % shortParts})
+	}
+	return out, layouts
+}
+
+const shortLen = 2
+
+// shardOut is what a shard process hands to the parent.
+type shardOut struct {
+	Stats    *stats       `json:"stats"`
+	Findings []findingRec `json:"findings"`
+	Samples  []vCase      `json:"samples"`
+	Capped   bool         `json:"capped"`
+	Infra    string       `json:"infra"`
+	DetCases int          `json:"det_cases"`
+	JobsDone int          `json:"jobs_done"`
+	WallS    float64      `json:"wall_s"`
+}
+
+// runShard executes jobs i, i+n, i+2n, ... in this process (single P: client and handler
+// goroutine hand over to each other without cross-thread wake-ups).
+func runShard(t *testing.T, tier string, seed int64, idx, n int, deadline time.Time, dir string) *shardOut {
+	t0 := time.Now()
+	out := &shardOut{Stats: newStats()}
+	wk, err := newWorker(t, dir)
+	if err != nil {
+		out.Infra = err.Error()
+		return out
+	}
+	defer func() {
+		wk.close()
+		out.Stats.merge(wk.st)
+		for _, sig := range wk.sink.order {
+			out.Findings = append(out.Findings, *wk.sink.findings[sig])
+		}
+		out.Samples = wk.sink.samples
+		out.WallS = time.Since(t0).Seconds()
+	}()
+	jobs, _ := planJobs(tier, seed)
+
+	if idx == 0 {
+		// determinism self-check: one world twice, outcome logs must be identical
+		l := sq.MustParse("w2:TX1,A2,TAIL1")[0]
+		var logs [2][]string
+		for round := 0; round < 2; round++ {
+			S, err := sq.Build(l, 0)
+			if err != nil {
+				out.Infra = err.Error()
+				return out
+			}
+			w := &world{S: S, height: 5000, storage: "q4", ods: S.ODS()}
+			if err := wk.hold(w); err != nil {
+				out.Infra = err.Error()
+				return out
+			}
+			for _, sp := range specsFor(w, tier, 0) {
+				o, _ := wk.run(sp, w, l.String())
+				logs[round] = append(logs[round], kindNames[sp.kind]+" "+hexs(sp.raw)+" "+sp.fault.Name+" "+o)
+			}
+			wk.drop(w)
+		}
+		for i := range logs[0] {
+			if i >= len(logs[1]) || logs[0][i] != logs[1][i] {
+				out.Infra = fmt.Sprintf("NONDETERMINISM: %q vs %q", logs[0][i], logs[1][min(i, len(logs[1])-1)])
+				return out
+			}
+		}
+		out.DetCases = len(logs[0])
+		wk.st.Distinct += int64(len(logs[0])) // the second round repeats the first
+	}
+
+	var shortWorld *world
+	for i := idx; i < len(jobs); i += n {
+		if time.Now().After(deadline) {
+			out.Capped = true
+			return out
+		}
+		j := jobs[i]
+		if j.short > 0 {
+			if shortWorld == nil {
+				l := sq.MustParse("w2:TX1,A2,TAIL1")[0]
+				S, _ := sq.Build(l, 0)
+				shortWorld = &world{S: S, height: 7000, storage: "q4", ods: S.ODS()}
+				if err := wk.hold(shortWorld); err != nil {
+					out.Infra = err.Error()
+					return out
+				}
+			}
+			wk.cs.inner = wk.stores["q4"]
+			cnt := 0
+			stopped := false
+			shortStrings(shortLen, func(sp spec) bool {
+				if sp.kind != j.short-1 {
+					return true
+				}
+				if len(sp.raw) < 2 && j.part != 0 {
+					return true
+				}
+				if len(sp.raw) == 2 && int(sp.raw[0])%shortParts != j.part {
+					return true
+				}
+				if cnt%8192 == 8191 && time.Now().After(deadline) {
+					stopped = true
+					return false
+				}
+				wk.run(sp, shortWorld, shortWorld.S.Layout.String())
+				wk.st.Distinct++
+				wk.st.Short++
+				cnt++
+				return true
+			})
+			if stopped {
+				out.Capped = true
+				return out
+			}
+			out.JobsDone++
+			continue
+		}
+		S, err := sq.Build(j.lay, 0)
+		if err != nil {
+			out.Infra = err.Error()
+			return out
+		}
+		w := &world{S: S, height: uint64(10000 + 1000*i), storage: j.storage, ods: S.ODS()}
+		if err := wk.hold(w); err != nil {
+			out.Infra = fmt.Sprintf("storing %s: %v", j.lay, err)
+			return out
+		}
+		specs := specsFor(w, tier, j.li)
+		seen := make(map[string]struct{}, len(specs))
+		lay := j.lay.String()
+		for _, sp := range specs {
+			key := string(rune('0'+sp.kind)) + sp.fault.Name + sp.mode + string(sp.raw)
+			if _, dup := seen[key]; dup {
+				continue
+			}
+			seen[key] = struct{}{}
+			wk.run(sp, w, lay)
+			wk.st.Distinct++
+		}
+		wk.st.Worlds++
+		wk.st.PerWidth[fmt.Sprintf("w%d", j.lay.W)]++
+		wk.st.PerStorage[j.storage]++
+		wk.drop(w)
+		out.JobsDone++
+	}
+	return out
+}
+
 func TestVerifC09(t *testing.T) {
 	quiet()
+	// shard process: do the work, write the result file, nothing else
+	if sh := os.Getenv("VERIF_C09_SHARD"); sh != "" {
+		var idx, n int
+		var dl int64
+		if _, err := fmt.Sscanf(sh, "%d/%d/%d", &idx, &n, &dl); err != nil {
+			t.Fatal(err)
+		}
+		seed, _ := strconv.ParseInt(os.Getenv("VERIF_SEED"), 10, 64)
+		out := runShard(t, vx.TierFromEnv(), seed, idx, n, time.UnixMilli(dl), os.Getenv("VERIF_C09_DIR"))
+		b, _ := json.Marshal(out)
+		if err := os.WriteFile(os.Getenv("VERIF_C09_OUT"), b, 0o644); err != nil {
+			t.Fatal(err)
+		}
+		return
+	}
+
 	rep := vx.NewReport("C09", "model_checking")
 	rep.Rule = "bounded-exhaustive inputs on the real shrex Server (all five registered handlers behind the recovery middleware, real store) and real Client over an in-memory stream pair: " +
-		"for every namespace layout of the stated ODS widths stored in each storage form (recent cache / ODS+Q4 files / ODS file), every well-formed request (whole square, every EDS row, every EDS coordinate, every probe namespace incl. absent ones, every [from,to) ODS range), " +
+		"for every namespace layout of the stated ODS widths stored in the stated storage forms (recent cache / ODS+Q4 files / ODS file), every well-formed request (whole square, every EDS row, every EDS coordinate, every probe namespace incl. absent ones, every [from,to) ODS range), " +
 		"every kind × heights not held, every field at and beyond its bound (grid), zero height, malformed / reserved / parity namespaces, from >= to, huge ranges, every truncation, over-long encodings, single-byte substitutions, all byte strings of length <= 2, " +
-		"and an explicit fault alphabet (memory reservation denied, write failures, store / accessor errors and panics, service-scope failure); a case is one (square, storage, protocol, request bytes, fault) executed end to end; it is distinct by that tuple and non-trivial because the real handler ran for it"
+		"and an explicit fault alphabet (memory reservation denied, write failures, store / accessor errors and panics, service-scope failure); a case is one (square, storage, protocol, request bytes, fault) executed end to end; it is distinct by that tuple (duplicates produced by two enumerators are dropped before execution) and non-trivial because the real handler ran for it"
 	rep.Assumptions = []string{
-		"the in-memory host/stream/scope transport bytes and record calls faithfully; stream deadlines are enforced only in the stalled-client scenario (synctest bubble, fake clock)",
+		"the in-memory host/stream/scope transport bytes and record calls faithfully; the handler receives its stream after the opener's first write (lazy negotiation); stream deadlines are enforced only in the stalled-client scenario (synctest bubble, fake clock)",
 		"reference: rsmt2d square and DataAvailabilityHeader of verifx/sq; independent big-endian encoder/decoder of the five identifiers; namespace validity re-stated independently of go-square",
 		"a range whose shares span several namespaces is outside the RangeNamespaceData contract (documented single-namespace container): only 'accepted => equal' is judged for it",
 		"trailing bytes after a complete fixed-size identifier are not visible to a server that reads a fixed-size prefix: such requests may be served as their prefix or refused",
@@ -837,23 +1119,16 @@ func TestVerifC09(t *testing.T) {
 		replayC09(t, rep, p)
 		return
 	}
-	deadline := rep.Deadline(75*time.Second, 17*time.Minute)
+	deadline := rep.Deadline(70*time.Second, 17*time.Minute)
 	tier := rep.Tier
-	layouts := layoutsFor(tier)
-	if rep.Seed != 0 && len(layouts) > 0 { // the seed only rotates the order
-		k := int(uint64(rep.Seed) % uint64(len(layouts)))
-		layouts = append(append([]sq.Layout(nil), layouts[k:]...), layouts[:k]...)
+	jobs, layouts := planJobs(tier, rep.Seed)
+	perWidthLayouts, perWidthWorlds := map[int]int{}, map[int]int{}
+	for _, l := range layouts {
+		perWidthLayouts[l.W]++
 	}
-
-	type job struct {
-		li      int
-		lay     sq.Layout
-		storage string
-	}
-	var jobs []job
-	for li, l := range layouts {
-		for _, sf := range storages {
-			jobs = append(jobs, job{li, l, sf})
+	for _, j := range jobs {
+		if j.short == 0 {
+			perWidthWorlds[j.lay.W]++
 		}
 	}
 
@@ -863,181 +1138,120 @@ func TestVerifC09(t *testing.T) {
 	}
 	defer os.RemoveAll(root)
 
-	total := newStats()
-	var mu sync.Mutex
-	var next int64 = -1
-	var capped atomic.Bool
-	var infra atomic.Value
-	perWidthLayouts := map[int]int{}
-	for _, l := range layouts {
-		perWidthLayouts[l.W]++
-	}
-
-	// determinism self-check: the first world twice, outcome logs must be identical
-	{
-		wk, err := newWorker(t, rep, filepath.Join(root, "det"))
-		if err != nil {
-			t.Fatal(err)
-		}
-		l := sq.MustParse("w2:TX1,A2,TAIL1")[0]
-		var logs [2][]string
-		for round := 0; round < 2; round++ {
-			S, err := sq.Build(l, 0)
-			if err != nil {
-				t.Fatal(err)
-			}
-			w := &world{S: S, height: 5000, storage: "q4", ods: S.ODS()}
-			if err := wk.hold(w); err != nil {
-				t.Fatal(err)
-			}
-			for _, sp := range specsFor(w, tier, 0) {
-				out, _ := wk.run(sp, w, l.String())
-				logs[round] = append(logs[round], kindNames[sp.kind]+" "+hexs(sp.raw)+" "+sp.fault.Name+" "+out)
-			}
-			wk.drop(w)
-		}
-		wk.close()
-		if strings.Join(logs[0], "\n") != strings.Join(logs[1], "\n") {
-			for i := range logs[0] {
-				if i < len(logs[1]) && logs[0][i] != logs[1][i] {
-					rep.Infra(fmt.Sprintf("NONDETERMINISM: %q vs %q", logs[0][i], logs[1][i]))
-					break
-				}
-			}
-			t.Fatal("harness is not deterministic")
-		}
-		rep.Set("determinism_selfcheck_cases", len(logs[0]))
-		total.merge(wk.st)
-		total.distinct += int64(len(logs[0])) // second round repeats the first
-	}
-
+	// shard processes, one P each
 	nw := vx.Workers()
+	outs := make([]*shardOut, nw)
+	errs := make([]string, nw)
 	var wg sync.WaitGroup
-	for wi := 0; wi < nw; wi++ {
+	tShards := time.Now()
+	for i := 0; i < nw; i++ {
 		wg.Add(1)
-		go func(wi int) {
+		go func(i int) {
 			defer wg.Done()
-			wk, err := newWorker(t, rep, filepath.Join(root, fmt.Sprintf("w%02d", wi)))
+			outFile := filepath.Join(root, fmt.Sprintf("shard-%02d.json", i))
+			cmd := exec.Command(os.Args[0], "-test.run=^TestVerifC09$", "-test.count=1", "-test.timeout=0")
+			cmd.Env = append(os.Environ(),
+				fmt.Sprintf("VERIF_C09_SHARD=%d/%d/%d", i, nw, deadline.UnixMilli()),
+				"VERIF_C09_OUT="+outFile,
+				"VERIF_C09_DIR="+filepath.Join(root, fmt.Sprintf("store-%02d", i)),
+				"GOMAXPROCS=1", "VERIF_EVIDENCE=", "VERIF_REPLAY=")
+			b, err := cmd.CombinedOutput()
 			if err != nil {
-				infra.Store(err.Error())
+				tail := string(b)
+				if len(tail) > 3000 {
+					tail = tail[len(tail)-3000:]
+				}
+				errs[i] = fmt.Sprintf("shard %d: %v\n%s", i, err, tail)
 				return
 			}
-			defer func() {
-				wk.close()
-				mu.Lock()
-				total.merge(wk.st)
-				mu.Unlock()
-			}()
-			for {
-				i := int(atomic.AddInt64(&next, 1))
-				if i >= len(jobs) {
-					return
-				}
-				if time.Now().After(deadline) {
-					capped.Store(true)
-					return
-				}
-				j := jobs[i]
-				S, err := sq.Build(j.lay, 0)
-				if err != nil {
-					infra.Store(err.Error())
-					return
-				}
-				w := &world{S: S, height: uint64(10000 + 1000*i), storage: j.storage, ods: S.ODS()}
-				if err := wk.hold(w); err != nil {
-					infra.Store(fmt.Sprintf("storing %s: %v", j.lay, err))
-					return
-				}
-				specs := specsFor(w, tier, j.li)
-				seen := make(map[string]struct{}, len(specs))
-				lay := j.lay.String()
-				for _, sp := range specs {
-					key := string(rune('0'+sp.kind)) + sp.fault.Name + sp.mode + string(sp.raw)
-					if _, dup := seen[key]; dup {
-						continue
-					}
-					seen[key] = struct{}{}
-					wk.run(sp, w, lay)
-					wk.st.distinct++
-				}
-				wk.st.worlds++
-				wk.st.perWidth[fmt.Sprintf("w%d", j.lay.W)]++
-				wk.st.perStorage[j.storage]++
-				wk.drop(w)
+			data, err := os.ReadFile(outFile)
+			if err != nil {
+				errs[i] = fmt.Sprintf("shard %d: %v", i, err)
+				return
 			}
-		}(wi)
+			var so shardOut
+			if err := json.Unmarshal(data, &so); err != nil {
+				errs[i] = fmt.Sprintf("shard %d: %v", i, err)
+				return
+			}
+			outs[i] = &so
+		}(i)
 	}
 	wg.Wait()
-	if v := infra.Load(); v != nil {
-		rep.Infra(v.(string))
-		t.Fatal(v)
+	shardWall := time.Since(tShards).Seconds()
+	for _, e := range errs {
+		if e != "" {
+			rep.Infra(e)
+			t.Fatal(e)
+		}
 	}
-
-	// all byte strings of length <= 2 on every protocol, once (they never reach the store)
-	shortLen := 2
-	{
-		wk, err := newWorker(t, rep, filepath.Join(root, "short"))
-		if err != nil {
-			t.Fatal(err)
+	total := newStats()
+	capped := false
+	jobsDone, detCases := 0, 0
+	var shardWalls []float64
+	for _, so := range outs {
+		if so.Infra != "" {
+			rep.Infra(so.Infra)
+			t.Fatal(so.Infra)
 		}
-		l := sq.MustParse("w2:TX1,A2,TAIL1")[0]
-		S, _ := sq.Build(l, 0)
-		w := &world{S: S, height: 7000, storage: "q4", ods: S.ODS()}
-		if err := wk.hold(w); err != nil {
-			t.Fatal(err)
-		}
-		specs := shortStrings(shortLen)
-		done := 0
-		for _, sp := range specs {
-			if done%4096 == 0 && time.Now().After(deadline) {
-				capped.Store(true)
-				break
+		total.merge(so.Stats)
+		capped = capped || so.Capped
+		jobsDone += so.JobsDone
+		detCases += so.DetCases
+		shardWalls = append(shardWalls, so.WallS)
+		for _, f := range so.Findings {
+			for k := 0; k < f.Count; k++ {
+				rep.Violation(f.Sig, f.What, f.Case)
 			}
-			wk.run(sp, w, l.String())
-			wk.st.distinct++
-			done++
 		}
-		rep.Set("short_strings_max_len", shortLen)
-		rep.Set("short_strings_executed", done)
-		wk.drop(w)
-		wk.close()
-		total.merge(wk.st)
+	}
+	for _, so := range outs {
+		for _, c := range so.Samples {
+			rep.AddSample(c)
+		}
 	}
 
 	// stalled clients: a request prefix without closing the write side, fake clock
+	tStall := time.Now()
 	stallStats := stallScenario(t, rep)
 	rep.Set("stalled_client", stallStats)
+	rep.Set("phase_wall_s", map[string]any{"shards": shardWall, "per_shard": shardWalls, "stalled_client": time.Since(tStall).Seconds()})
 
-	rep.Count(total.cases+stallStats["cases"], total.distinct+stallStats["cases"], total.distinct+stallStats["cases"], total.events+stallStats["events"])
-	rep.SetExhaustive(!capped.Load())
+	rep.Count(total.Cases+stallStats["cases"], total.Distinct+stallStats["cases"], total.Distinct+stallStats["cases"], total.Events+stallStats["events"])
+	rep.SetExhaustive(!capped)
 	widths := map[string]any{}
 	for w, n := range perWidthLayouts {
-		widths[fmt.Sprintf("w%d", w)] = map[string]any{"layouts_planned": n, "worlds_planned": n * len(storages), "worlds_completed": total.perWidth[fmt.Sprintf("w%d", w)]}
+		widths[fmt.Sprintf("w%d", w)] = map[string]any{"layouts_planned": n, "worlds_planned": perWidthWorlds[w], "worlds_completed": total.PerWidth[fmt.Sprintf("w%d", w)]}
 	}
 	rep.Set("bounds", widths)
-	rep.Set("worlds_completed", total.worlds)
-	rep.Set("worlds_planned", len(jobs))
-	rep.Set("capped_by_deadline", capped.Load())
-	rep.Set("positive_controls_accepted_with_exact_data", total.accepted)
-	rep.Set("not_held_answered_not_found", total.notFound)
-	rep.Set("malformed_refused", total.refused)
-	rep.Set("mixed_namespace_ranges", total.mixed)
-	rep.Set("fault_cases", total.faulted)
-	rep.Set("overlong_requests", total.overlong)
-	rep.Set("panics_recovered_by_middleware", total.recovered)
-	rep.Set("over_release_observed", total.overRel)
-	rep.Set("per_group", total.perGroup)
+	rep.Set("shard_processes", nw)
+	rep.Set("jobs_planned", len(jobs))
+	rep.Set("jobs_completed", jobsDone)
+	rep.Set("worlds_completed", total.Worlds)
+	rep.Set("capped_by_deadline", capped)
+	rep.Set("determinism_selfcheck_cases", detCases)
+	rep.Set("short_strings_max_len", shortLen)
+	rep.Set("short_strings_executed", total.Short)
+	rep.Set("positive_controls_accepted_with_exact_data", total.Accepted)
+	rep.Set("not_held_answered_not_found", total.NotFound)
+	rep.Set("malformed_refused", total.Refused)
+	rep.Set("mixed_namespace_ranges", total.Mixed)
+	rep.Set("fault_cases", total.Faulted)
+	rep.Set("overlong_requests", total.Overlong)
+	rep.Set("panics_recovered_by_middleware", total.Recovered)
+	rep.Set("over_release_observed", total.OverRel)
+	rep.Set("per_group", total.PerGroup)
 	gms := map[string]int64{}
-	for k, v := range total.groupNs {
+	for k, v := range total.GroupNs {
 		gms[k] = v / 1e6
 	}
 	rep.Set("worker_ms_per_group", gms)
-	rep.Set("per_kind", total.perKind)
-	rep.Set("per_storage_worlds", total.perStorage)
-	rep.Set("per_fault", total.perFault)
-	rep.Set("distinct_outcomes", len(total.outcomes))
-	rep.Set("outcome_histogram", total.outcomes)
-	if total.accepted == 0 || total.notFound == 0 || total.refused == 0 {
+	rep.Set("per_kind", total.PerKind)
+	rep.Set("per_storage_worlds", total.PerStorage)
+	rep.Set("per_fault", total.PerFault)
+	rep.Set("distinct_outcomes", len(total.Outcomes))
+	rep.Set("outcome_histogram", total.Outcomes)
+	if total.Accepted == 0 || total.NotFound == 0 || total.Refused == 0 {
 		rep.Infra("vacuous run: no accepted / not-found / refused case")
 		t.Fatal("vacuous")
 	}
@@ -1165,7 +1379,7 @@ func replayC09(t *testing.T, rep *vx.Report, path string) {
 	fails := 0
 	var events int64
 	for i := 0; i < 5; i++ {
-		wk, err := newWorker(t, rep, filepath.Join(root, fmt.Sprint(i)))
+		wk, err := newWorker(t, filepath.Join(root, fmt.Sprint(i)))
 		if err != nil {
 			t.Fatal(err)
 		}
@@ -1185,7 +1399,11 @@ func replayC09(t *testing.T, rep *vx.Report, path string) {
 			fails++
 		}
 		fmt.Printf("REPLAY-RESULT run=%d outcome=%s findings=%d\n", i+1, out, len(fs))
-		events += wk.st.events
+		for _, sig := range wk.sink.order {
+			f := wk.sink.findings[sig]
+			rep.Violation(f.Sig, f.What, f.Case)
+		}
+		events += wk.st.Events
 		wk.drop(w)
 		wk.close()
 	}
